@@ -300,7 +300,7 @@ impl SSIterator for BlockIter {
     }
 
     fn valid(&self) -> bool {
-        !self.key.is_empty() && self.val_offset > 0 && self.val_offset <= self.restarts_off
+        self.val_offset > 0 && self.val_offset <= self.restarts_off
     }
 
     fn current(&self, key: &mut Vec<u8>, val: &mut Vec<u8>) -> bool {
